@@ -240,6 +240,11 @@ func (it *TxnIterator) advance() {
 			}
 		}
 		if !it.materializeEntry(entry, cf, userKey, version) {
+			// The newest visible version of this key is a tombstone or has
+			// expired: the key is absent, older versions must not show through.
+			if !it.opt.AllVersions {
+				it.lastKey = append(it.lastKey[:0], userKey...)
+			}
 			it.iitr.Next()
 			continue
 		}
